@@ -327,6 +327,15 @@ FEATURES = {
                           "sleep(abs(-250))\nwhile True:\n    led.toggle()\n    sleep(period)\n    mon.write(len(\"abc\") + low + high)\n",
     "feat-loop-promotions": _FH + "cnt = 0\nwhile cnt < 3:\n    lo = cnt\n    hi = cnt + 1\n    cnt += 1\nfor gi in range(2):\n    hi2 = gi\n    lo2 = gi + 1\nmon.write(lo + hi + lo2 + hi2)\n",
     "feat-loop-promotions-rev": _FH + "cnt = 0\nwhile cnt < 3:\n    hi = cnt + 1\n    lo = cnt\n    cnt += 1\nfor gi in range(2):\n    lo2 = gi + 1\n    hi2 = gi\nmon.write(lo + hi + lo2 + hi2)\n",
+    # names that any "natural" ordering (digit runs compared as numbers, case folded, ...) cannot tell apart: the injected polls / ticks
+    # / handlers of such devices still come out in ONE order under every hash seed
+    "feat-lookalike-names": _FH + "from Reduino.Displays import LCD\ndef h1():\n    mon.write(1)\ndef h01():\n    mon.write(2)\ndef h001():\n    mon.write(3)\n"
+                            "btn1 = Button(2, on_click=h1)\nbtn01 = Button(3, on_click=h01)\nbtn001 = Button(4, on_click=h001)\nbtn0001 = Button(5)\nBtn1 = Button(6)\nbtn_1 = Button(7)\n"
+                            "lcd2 = LCD(rs=22, en=23, d4=24, d5=25, d6=26, d7=27)\nlcd02 = LCD(i2c_addr=0x27, cols=16, rows=2)\nlcd002 = LCD(i2c_addr=0x3F, cols=16, rows=2)\n"
+                            "lcd2.animate(\"scroll\", 0, \"abcdefghijklmnopqrstuvwxyz\", speed_ms=50, loop=True)\nlcd02.animate(\"blink\", 0, \"hey\", speed_ms=50, loop=True)\n"
+                            "lcd002.animate(\"bounce\", 1, \"yo\", speed_ms=50, loop=True)\n"
+                            "while True:\n    mon.write(btn1.is_pressed())\n    mon.write(btn01.is_pressed())\n    mon.write(btn001.is_pressed())\n    mon.write(btn0001.is_pressed())\n"
+                            "    mon.write(Btn1.is_pressed())\n    mon.write(btn_1.is_pressed())\n    sleep(20)\n",
     "merge-many-devices": _FH + "la = Led(3)\nlb = Led(4)\nlc = Led(5)\nsa = Servo(9)\nsb = Servo(10)\nra = RGBLed(6, 7, 8)\nba = Button(11)\nbb = Button(12)\nbz = Buzzer(2)\nwhile True:\n    la.toggle()\n    lb.on()\n    lc.off()\n    sa.write(10)\n    sb.write(20)\n    ra.set_color(1, 2, 3)\n    bz.beep(440, 5, 5, 2)\n    mon.write(ba.is_pressed())\n    mon.write(bb.is_pressed())\n",
 }
 EXPECT_REJECT = {k for k in FEATURES if k.startswith("rej-")}
@@ -334,7 +343,7 @@ FEATURE_GROUPS = [["feat-swap-loop", "rej-swap-then-break", "feat-swap-for"], ["
                   ["feat-swap-many", "rej-swap-loop-then-align", "feat-swap-loop"], ["feat-swap-for", "rej-conflict-after-defs", "feat-swap-fn"],
                   ["merge-ret-lists", "merge-ret-num", "rej-ret-str-num"], ["merge-list-elems", "merge-ternary", "merge-call-sites"],
                   ["merge-many-devices", "merge-ret-lists", "rej-swap-then-break"],
-                  ["feat-builtin-const", "feat-loop-promotions", "feat-loop-promotions-rev"], ["feat-builtin-const", "merge-ternary", "feat-swap-loop"]]
+                  ["feat-builtin-const", "feat-loop-promotions", "feat-loop-promotions-rev"], ["feat-lookalike-names", "merge-many-devices", "feat-lookalike-names"], ["feat-builtin-const", "merge-ternary", "feat-swap-loop"]]
 
 
 def _twin(src: str, rng: random.Random) -> str | None:
